@@ -1,5 +1,5 @@
 (* Property C17 - statements only.  The theorems are closed by [exact] (for five of them a script
-   of at most three lines) of lemmas from Proofs/Accept_proofs.v, the witness (`_refuted`) theorems
+   of at most three lines) of lemmas from Proofs/Accept_proofs.v and Proofs/C17_round4.v, the witness (`_refuted`) theorems
    and the Examples by computation; the statements are pinned again in pins/C17.v.
 
    Vocabulary (Model/Accept.v):  [ser_buf k ws t v : writer] is `<K as SerializeValue>::serialize`
@@ -13,7 +13,7 @@
    [add_value], [sv_iter], [run_ops], [from_row] model SerializedValues;  [row_check] /
    [typed_rows] the row type check in `TypedRowIterator::new` (the other call site, pager.rs
    `TypedRowStream`, is outside this slice). *)
-From SV Require Import Base.Prelude Base.Bytes Model.Vint Model.Cql Model.Accept Proofs.Cql_proofs Proofs.Accept_proofs.
+From SV Require Import Base.Prelude Base.Bytes Model.Vint Model.Cql Model.Accept Proofs.Cql_proofs Proofs.Accept_proofs Proofs.C17_round4.
 From SV Require Model.Request.
 From Coq Require Import Permutation.
 Open Scope N_scope.
@@ -587,6 +587,79 @@ Proof.
     try (intros H; apply dyn_fits_typing in H; vm_compute in H; discriminate H).
 Qed.
 
+(* ==== Deepening round 4 (proof only; lemmas in Proofs/C17_round4.v) ============================ *)
+
+(* The row check, completely: the error names the FIRST column whose `type_check` fails and carries
+   that check's leaf; every earlier column was accepted; WrongColumnCount iff the arities differ.
+   With C17_row_check_ok this characterises all three outcomes of [row_check] (was: RK_Ok only). *)
+Theorem C17_row_check_column : forall ks cols i e,
+  row_check ks cols = RK_Column i e <->
+  List.length ks = List.length cols /\
+  exists k t, nth_error ks i = Some k /\ nth_error cols i = Some t /\ deser_check k t = Some e /\
+    forall j k' t', (j < i)%nat -> nth_error ks j = Some k' -> nth_error cols j = Some t' ->
+                    deser_accepts k' t' = true.
+Proof. exact row_check_column. Qed.
+Theorem C17_row_check_arity : forall ks cols,
+  row_check ks cols = RK_WrongColumnCount <-> List.length ks <> List.length cols.
+Proof. exact row_check_count. Qed.
+
+(* TypedRowIterator::new returns exactly the row check's error, or an iterator over every row:
+   C17_read_guard / C17_read_refuses as equivalences, the error named *)
+Theorem C17_read_exact : forall ks cols rows,
+  (forall n, typed_rows ks cols rows = Ok n <-> row_check ks cols = RK_Ok /\ n = rows) /\
+  (forall e, typed_rows ks cols rows = Err e <-> row_check ks cols = e /\ e <> RK_Ok).
+Proof. exact typed_rows_exact. Qed.
+
+(* [deser_check] (what kind D compares leaf by leaf) against the documentation: for a carrier that
+   implements DeserializeValue the answer is never the model artefact TE_NoImpl (the driver's
+   `error carrier-has-no-deserialize-impl` branch is dead for such carriers), and it is an error
+   exactly on the pairs the documentation does not list *)
+Theorem C17_deser_check_doc : forall k t, deser_impl k = true ->
+  deser_check k t <> Some TE_NoImpl /\
+  (deser_check k t = None <-> doc_compat De k t = true).
+Proof. exact deser_check_doc. Qed.
+
+(* so a refused row names the first UNDOCUMENTED column, and no column before it is undocumented *)
+Theorem C17_read_first_undocumented : forall ks cols rows i e, forallb deser_impl ks = true ->
+  typed_rows ks cols rows = Err (RK_Column i e) ->
+  e <> TE_NoImpl /\
+  exists k t, nth_error ks i = Some k /\ nth_error cols i = Some t /\ doc_compat De k t = false /\
+    forall j k' t', (j < i)%nat -> nth_error ks j = Some k' -> nth_error cols j = Some t' ->
+                    doc_compat De k' t' = true.
+Proof. exact read_first_undocumented. Qed.
+
+(* The chunked state of the correspondence driver (kinds A / X), for EVERY reachable state - not
+   one step as in C17_chunks: after any operation sequence the chunk list and counter ARE the
+   SerializedValues of [run_ops]; every chunk parses as exactly one cell with the fuel the driver
+   gives it (its `iter_ok` test never fails on the model side); the counter is the number of chunks;
+   and `iter()` of the whole yields as many cells as there are chunks - the number the driver prints *)
+Theorem C17_chunks_reachable : forall ops,
+  run_ops ops = {| sv_bytes := chunks_bytes (fst (run_chunks ops)); sv_count := snd (run_chunks ops) |} /\
+  Forall (fun ch => exists x, sv_iter_go (S (List.length ch)) ch = Some [x]) (fst (run_chunks ops)) /\
+  snd (run_chunks ops) = N.of_nat (List.length (fst (run_chunks ops))) /\
+  exists cells, sv_iter (run_ops ops) = Some cells /\
+                List.length cells = List.length (fst (run_chunks ops)).
+Proof. exact run_chunks_reachable. Qed.
+
+(* non-vacuity of the round-4 statements: a refused row whose first failing column is the third
+   (two documented columns before it, an undocumented one after it is not reached); an arity
+   mismatch; a chunk sequence with a failed operation in the middle and a null cell *)
+Example C17_ex_round4 :
+  let ks := [KBase BI32; KVec (KBase BString); KHashSet (KBase BI32); KBase BI32] in
+  let cols := [tint; TList ttext; TList tint; ttext] in
+  forallb deser_impl ks = true /\
+  typed_rows ks cols 5 = Err (RK_Column 2 TE_NotSet) /\
+  deser_check (KHashSet (KBase BI32)) (TList tint) = Some TE_NotSet /\
+  doc_compat De (KHashSet (KBase BI32)) (TList tint) = false /\
+  doc_compat De (KVec (KBase BString)) (TList ttext) = true /\
+  row_check [KBase BI32] [tint; tint] = RK_WrongColumnCount /\
+  deser_impl (KSlice (KBase BI32)) = false /\ deser_check (KSlice (KBase BI32)) (TList tint) = Some TE_NoImpl /\
+  let ops := [(KBase BI32, tint, VLeaf (CInt 5)); (KBase BI32, ttext, VLeaf (CInt 6));
+              (KOption (KBase BString), ttext, VNull)] in
+  run_chunks ops = ([[255; 255; 255; 255]; [0; 0; 0; 4; 0; 0; 0; 5]], 2) /\
+  sv_iter (run_ops ops) = Some [RValue [0; 0; 0; 5]; RNull].
+Proof. vm_compute. repeat split; reflexivity. Qed.
+
 Print Assumptions C17_code_matrix.
 Print Assumptions C17_matrix_ser_doc_refuted.
 Print Assumptions C17_matrix_ser.
@@ -630,3 +703,9 @@ Print Assumptions C17_named_row_order.
 Print Assumptions C17_named_row_unique.
 Print Assumptions C17_named_row_order_refuted.
 Print Assumptions C17_dynamic_typing.
+Print Assumptions C17_row_check_column.
+Print Assumptions C17_row_check_arity.
+Print Assumptions C17_read_exact.
+Print Assumptions C17_deser_check_doc.
+Print Assumptions C17_read_first_undocumented.
+Print Assumptions C17_chunks_reachable.
